@@ -16,12 +16,23 @@ import (
 	"verifharness/ircsim"
 
 	"github.com/fluffle/goirc/client"
+	"github.com/fluffle/goirc/logging"
 	"pgregory.net/rapid"
 )
 
 // ---------------------------------------------------------------------------
 // C06: lifecycle events fire exactly once and agree with Connected()
 // ---------------------------------------------------------------------------
+
+// c06SlowLogger is an application's logger that takes a little while over every record (it writes to a
+// file, say): whatever the library logs between two steps of its own widens the gap between them.
+type c06SlowLogger struct{}
+
+func (c06SlowLogger) pause()                                    { time.Sleep(150 * time.Microsecond) }
+func (l c06SlowLogger) Debug(format string, args ...interface{}) {}
+func (l c06SlowLogger) Info(format string, args ...interface{})  { l.pause() }
+func (l c06SlowLogger) Warn(format string, args ...interface{})  { l.pause() }
+func (l c06SlowLogger) Error(format string, args ...interface{}) { l.pause() }
 
 type c06Scenario struct {
 	Tracking   bool `json:"tracking"`
@@ -240,6 +251,10 @@ func runC06(sc *c06Scenario) *Violation {
 		ctx, cancel := context.WithCancel(context.Background())
 		defer cancel()
 		tc.S.Prepare(func(c *ircsim.Conn) { cancel() })
+		if sc.Lines%2 == 0 {
+			logging.SetLogger(c06SlowLogger{})
+			defer logging.SetLogger(nil)
+		}
 		err := c06Connect(tc, sc, ctx)
 		tc.S.Prepare(nil)
 		if err != nil {
